@@ -185,12 +185,20 @@ def harnesses(ctx):
                 assumptions=["a subset load leaves unrequested fields at their defaults and requested ones as in a full load (decided by c11_parse_*/c11_skip_*)",
                              "the request is closed with InfoSubset::normalize as StatefulTokenizer::set_subset does"], timeout_s=900, mem_gb=10),
         Harness("c11_skip_wid_array", "dic__read__mod", ["skip_wid_array", "u32_wid_array_parser"], "every buffer of <= %d bytes" % nb,
-                kernel="C11-a' skip width = parse width (word-id arrays)", timeout_s=900, mem_gb=10),
+                kernel="C11-a' skip width = parse width (word-id arrays)", timeout_s=900, mem_gb=10, replay_alt="c11_skip_small_wid"),
         Harness("c11_skip_u32_array", "dic__read__mod", ["skip_u32_array", "u32_array_parser"], "every buffer of <= %d bytes" % nb,
-                kernel="C11-a' skip width = parse width (u32 arrays)", timeout_s=900, mem_gb=10),
+                kernel="C11-a' skip width = parse width (u32 arrays)", timeout_s=900, mem_gb=10, replay_alt="c11_skip_small_u32"),
         Harness("c11_skip_u16_string", "dic__read__mod", ["skip_u16_string", "utf16_string_parser", "utf16_string_data", "string_length_parser", "U16CodeUnits::next"],
                 "every buffer of <= %d bytes whose length prefix is <= %d units" % (nb, 3 if q else 4),
-                kernel="C11-a' skip width = parse width (UTF-16 strings)", timeout_s=1200, mem_gb=12),
+                kernel="C11-a' skip width = parse width (UTF-16 strings)", timeout_s=1200, mem_gb=12, replay_alt="c11_skip_small_str"),
+        Harness("c11_skip_u16_string_long_prefix", "dic__read__mod", ["skip_u16_string", "utf16_string_parser", "utf16_string_data", "string_length_parser"],
+                "every buffer of <= %d bytes that starts with a 2-byte length prefix (0x80, n) with n <= %d units" % (nb, 3 if q else 4),
+                kernel="C11-a' skip width = parse width behind the 2-byte form of the length prefix (strings of 127+ units use it)", timeout_s=1200, mem_gb=12, replay_alt="c11_skip_small_str"),
+    ] + [
+        Harness("c11_skip_small_" + k, "dic__read__mod", [f], "4-5 byte buffers (replay-only sibling)",
+                kernel="replay-only: same assertion as c11_skip_* at a bound small enough for Kani's concrete-playback mode", tiers=("replay-only",), timeout_s=900, mem_gb=12)
+        for k, f in (("str", "skip_u16_string"), ("wid", "skip_wid_array"), ("u32", "skip_u32_array"))
+    ] + [
     ]
     PARSE_FNS = ["WordInfoParser::subset", "WordInfoParser::parse", "parse_field!", "utf16_string_parser", "skip_u16_string", "string_length_parser",
                  "u32_wid_array_parser", "skip_wid_array", "u32_array_parser", "skip_u32_array"]
